@@ -461,6 +461,54 @@ func runC20(tw *traceWriter, r *rand.Rand, ops []string, et int32, cred string) 
 					}
 					kp.mu.Unlock()
 				}
+			case "loginOddKDC":
+				// logins of a client with the same credentials and the same logger at KDCs that answer with every kind of
+				// referral, error and unusable reply (the library's reactions - log lines, errors, dumps - are outputs too)
+				other := "ODD.C20.TEST"
+				scripts := [][]asStep{
+					{{T: "wrongrealm", To: other}, {T: "error", Code: 6}},
+					{{T: "wrongrealm", To: other}, {T: "wrongrealm", To: realm}, {T: "wrongrealm", To: other}, {T: "wrongrealm", To: realm}, {T: "wrongrealm", To: other}, {T: "wrongrealm", To: realm}, {T: "wrongrealm", To: other}, {T: "wrongrealm", To: realm}},
+					{{T: "wrongrealm", To: other}, {T: "auto"}},
+					{{T: "preauth", Code: 24, Hint: et}, {T: "preauth", Code: 24, Hint: et}},
+					{{T: "preauth", Code: 25, Hint: 0}},
+					{{T: "preauth", Code: 25, Hint: et, More: 17}, {T: "error", Code: 18}},
+					{{T: "error", Code: 60}},
+					{{T: "reply", Good: false}},
+					{{T: "netfail"}},
+				}
+				for vi, sc := range scripts {
+					w := &asWorld{k: k, user: "alice", pw: curPw, home: realm, et: et, requirePA: vi%2 == 0, ktKeys: map[int32]types.EncryptionKey{}}
+					pn := types.PrincipalName{NameType: 1, NameString: []string{"alice"}}
+					w.defSalt = pn.GetSalt(realm)
+					w.salt = w.defSalt
+					w.script = append([]asStep{}, sc...)
+					a1, e1 := w.listen(realm)
+					a2, e2 := w.listen(other)
+					if e1 != nil || e2 != nil {
+						w.close()
+						continue
+					}
+					oddCfg, e := config.NewFromString(simConf(realm, map[string][]string{realm: {a1}, other: {a2}}, lib, nil))
+					if e != nil {
+						w.close()
+						continue
+					}
+					var c2 *client.Client
+					if cred == "keytab" {
+						c2 = client.NewWithKeytab("alice", realm, kt, oddCfg, client.DisablePAFXFAST(vi%3 != 0), client.Logger(lg))
+					} else {
+						c2 = client.NewWithPassword("alice", realm, curPw, oddCfg, client.DisablePAFXFAST(vi%3 != 0), client.Logger(lg))
+					}
+					emitErr(fmt.Sprintf("loginOddKDC-%d", vi), c2.Login())
+					var sb bytes.Buffer
+					c2.Print(&sb)
+					outs = append(outs, output{fmt.Sprintf("print:oddclient-%d", vi), append([]byte{}, sb.Bytes()...)})
+					sb.Reset()
+					emitErr(fmt.Sprintf("diagnostics-odd-%d", vi), c2.Diagnostics(&sb))
+					outs = append(outs, output{fmt.Sprintf("diagnostics:oddclient-%d", vi), append([]byte{}, sb.Bytes()...)})
+					c2.Destroy()
+					w.close()
+				}
 			case "destroy":
 				cl.Destroy()
 			}
